@@ -101,6 +101,39 @@ theorem stable_consumer_is_wstep (w : World) (i k : Nat) :
             | zero => exact hn rfl
             | succ m' => simp at h
 
+/-- `OwningIovec::new_from_slices(slices, Some(arena))` over freshly lent buffers is the two-step history
+`new_from_arena(arena); extend(slices)` — the same world, handle for handle (this is how the driver
+executes the op word `new_from_slices_arena`). -/
+theorem new_from_slices_arena_is_wrun (w : World) (j : Nat) (ar : Arena) (bufs : List (List UInt8))
+    (ha : w.arena j = some ar) :
+    w.run [.newFromArena j, .extend w.iovs.length bufs] =
+      ((w.addExts bufs).1.newFromSlicesArena j (w.addExts bufs).2).map (·.1) := by
+  have hb0 : borrowedIov ar [] = { Iov.empty with arena := ar } := rfl
+  -- left: `extend` on the fresh iovec
+  have hL : ∀ W0 : World, W0.iov w.iovs.length = some (borrowedIov ar []) →
+      (W0.addExts bufs).1.extend w.iovs.length (W0.addExts bufs).2 =
+        some (({ W0 with exts := W0.exts ++ bufs } : World).setIov w.iovs.length
+          (some (borrowedIov ar ((extSlices W0.exts.length bufs).filter (fun s => s.len > 0))))) := by
+    intro W0 h0
+    rw [Api.addExts_eq]
+    simp only
+    have := extend_borrowed w.iovs.length ar (extSlices W0.exts.length bufs) [] ({ W0 with exts := W0.exts ++ bufs } : World)
+      (by intro x hx; exact extSlices_ext _ _ x (by simpa using hx)) h0
+    simpa using this
+  simp only [World.run, World.step, ha]
+  rw [hL _ (by simp [World.iov, World.addIov, World.setArena, List.getD_eq_getElem?_getD, hb0])]
+  -- right: `new_from_slices` with the arena
+  rw [Api.addExts_eq]
+  unfold World.newFromSlicesArena
+  have harena : ({ w with exts := w.exts ++ bufs } : World).arena j = some ar := ha
+  simp only [harena, Option.map_some, Option.some.injEq]
+  unfold World.newFromSlices World.addIov World.setIov World.setArena
+  simp only [World.mk.injEq, and_true, true_and]
+  unfold listSet
+  simp only [List.length_append, List.length_singleton, Nat.lt_add_one, if_true]
+  rw [List.set_append_right _ _ (Nat.le_refl _)]
+  simp [borrowedIov]
+
 /-- What `front()`, iteration, `iovs()` and `StableIovec::iovs()` hand out are slices of the stable
 prefix … -/
 theorem accessors_return_stable_slices (w : World) (v : Iov) (n : Nat) (h : v.stableCount = some n) :
